@@ -15,6 +15,7 @@ def cores(repo):
     from csvpath.modes.return_mode import ReturnMode
     from csvpath.modes.run_mode import RunMode
     from csvpath.modes.unmatched_mode import UnmatchedMode
+    from csvpath.modes.source_mode import SourceMode
 
     return [
         (py2lean.Core(
@@ -64,14 +65,15 @@ def cores(repo):
             repo, "Modes",
             [("csvpath/modes/return_mode.py", "ReturnMode", ["value"]),
              ("csvpath/modes/run_mode.py", "RunMode", ["value"]),
-             ("csvpath/modes/unmatched_mode.py", "UnmatchedMode", ["value"])],
+             ("csvpath/modes/unmatched_mode.py", "UnmatchedMode", ["value"]),
+             ("csvpath/modes/source_mode.py", "SourceMode", ["value"])],
             heap=True,
             ignore=LOGGING,
             observers_args={"self.controller.get"},
-            consts={"ReturnMode": ReturnMode, "RunMode": RunMode, "UnmatchedMode": UnmatchedMode},
+            consts={"ReturnMode": ReturnMode, "RunMode": RunMode, "UnmatchedMode": UnmatchedMode, "SourceMode": SourceMode},
             doc="C15: how the return-mode, run-mode and unmatched-mode settings of the outer comment are read (the `value` getters; "
                 "`self.controller.get(<mode>)` is the metadata field of that name)."),
-         [("ReturnMode", "value"), ("RunMode", "value"), ("UnmatchedMode", "value")]),
+         [("ReturnMode", "value"), ("RunMode", "value"), ("UnmatchedMode", "value"), ("SourceMode", "value")]),
         (py2lean.Core(
             repo, "Matches",
             [("csvpath/matching/matcher.py", "Matcher", ["matches"]),
